@@ -335,7 +335,8 @@ def eager_contraction_tensor(red_op, bin_op, reduced_vars, *terms):
     if not all(term.dtype == "real" for term in terms):
         raise NotImplementedError("TODO")
     backend = BACKEND_TO_EINSUM_BACKEND[get_backend()]
-    return _eager_contract_tensors(reduced_vars, terms, backend=backend)
+    result = _eager_contract_tensors(reduced_vars, terms, backend=backend)
+    return _reduce_unused_vars(red_op, result, reduced_vars, terms)
 
 
 @eager.register(Contraction, ops.LogaddexpOp, ops.AddOp, frozenset, Tensor, Tensor)
@@ -343,7 +344,17 @@ def eager_contraction_tensor(red_op, bin_op, reduced_vars, *terms):
     if not all(term.dtype == "real" for term in terms):
         raise NotImplementedError("TODO")
     backend = BACKEND_TO_LOGSUMEXP_BACKEND[get_backend()]
-    return _eager_contract_tensors(reduced_vars, terms, backend=backend)
+    result = _eager_contract_tensors(reduced_vars, terms, backend=backend)
+    return _reduce_unused_vars(red_op, result, reduced_vars, terms)
+
+
+def _reduce_unused_vars(red_op, result, reduced_vars, terms):
+    # The einsum below silently ignores reduced variables that no term
+    # mentions; account for their multiplicity.
+    unused_vars = reduced_vars.difference(*(term.input_vars for term in terms))
+    if unused_vars:
+        result = result.reduce(red_op, unused_vars)
+    return result
 
 
 # TODO Consider using this for more than binary contractions.
